@@ -6,7 +6,7 @@ import SV.TxCache.SelOrderProofs
 import SV.TxCache.GreedySpec
 import SV.TxCache.HeapModel
 import SV.TxCache.ReachableProofs
-import SV.GenProofs
+import SV.GenProofs.TxComparator
 namespace SV.Props.C03
 open SV SV.TxCache
 
